@@ -35,7 +35,8 @@ ASSUMPTIONS = [
     "floats are passed to Coq as exact rationals; the model computes in Q, the library in float64 (tolerance 1e-9)",
     "requests that make scipy's eigs itself raise on this scipy (sparse n<=2: 'Cannot use scipy.linalg.eig for sparse A'; "
     "W@ones == 0: 'ARPACK error -9: Starting vector is zero') are counted as environment skips, not as violations",
-    "per-column input_scaling factors are passed with the requested dtype, so numpy type promotion is not charged to the library",
+    "per-column input_scaling factors are float64 arrays whatever the draw's dtype: the result must keep the requested dtype",
+    "ring / line with explicit weights take the weights' dtype (ambiguous, not flagged: dtype is never requested together with weights)",
 ]
 
 EPS = 1e-8
@@ -675,6 +676,22 @@ def null_radius_cases():
             for s in range(50)]
 
 
+def dtype_probe_cases():
+    """per-column float64 factors on float32 / float16 draws, dense and sparse (fixed defect input_scaling:dtype-changed)"""
+    out = []
+    k = 0
+    for init in ("uniform", "normal", "bernoulli"):
+        for dtn, fmts in (("float32", ["dense", "csr", "csc"]), ("float16", ["dense"])):
+            for f in fmts:
+                kw = {"dtype": dtn}
+                if f != "dense":
+                    kw.update(connectivity=0.5, sparsity_type=f)
+                k += 1
+                out.append({"kind": "oracle", "init": init, "shape": [4, 3], "kw": kw, "seed": 100 + k, "split": k,
+                            "input_scaling_vec": ["1/2", "-3", "5/4"]})
+    return out
+
+
 def _judge(c):
     """Decide the statement of C13 on one configuration, directly on the real code. Returns a violation dict or None."""
     m = mg()
@@ -723,7 +740,7 @@ def _judge(c):
             if int(np.count_nonzero(D)) != size:
                 return _viol("density", "%s with connectivity=1 has zero entries" % init, c, size, int(np.count_nonzero(D)))
     # ---- value support
-    tol = 1e-6 if dt == np.float32 else 1e-12
+    tol = {np.dtype(np.float16): 2e-3, np.dtype(np.float32): 1e-6}.get(dt, 1e-12)
     bad = None
     if not np.all(np.isfinite(D)):
         bad = "non-finite values"
@@ -827,8 +844,8 @@ def _judge(c):
             exp = D * s
             arg = s
         else:
-            s = np.array([fl(x) for x in c["input_scaling_vec"]], dtype=dt)
-            exp = D * s.astype(float)[None, :]
+            s = np.array([fl(x) for x in c["input_scaling_vec"]], dtype=np.float64)   # float64 factors, whatever the draw's dtype
+            exp = D * s[None, :]
             arg = s
         try:
             W = call_init(init, shape, kw, seed, input_scaling=arg)
@@ -836,7 +853,8 @@ def _judge(c):
             return _viol("exception:%s:input_scaling" % init, "valid %s(input_scaling=...) request raises %r" % (init, e), c)
         if tuple(W.shape) != expected_shape(c):
             return _viol("input_scaling:shape", "input_scaling changes the shape", c, expected_shape(c), list(W.shape))
-        if not np.allclose(dense(W).astype(float), exp, rtol=1e-5 if dt == np.float32 else 1e-12, atol=0):
+        vt = {np.dtype(np.float16): 2e-3, np.dtype(np.float32): 1e-5}.get(dt, 1e-12)
+        if not np.allclose(dense(W).astype(float), exp, rtol=vt, atol=0):
             return _viol("input_scaling:values", "result is not the unscaled draw times the %s" %
                          ("scalar" if "input_scaling" in c else "per-column factors"), c)
         if fmt_of(W) != ef:
@@ -892,7 +910,7 @@ def judge(case):
 
 def oracle(ctx, scale=1):
     rng = ctx.rng("oracle")
-    cases = [gen_oracle_case(rng, i) for i in range(ctx.n(350, 4000) * scale)] + null_radius_cases()
+    cases = [gen_oracle_case(rng, i) for i in range(ctx.n(350, 4000) * scale)] + null_radius_cases() + dtype_probe_cases()
     cases += [gen_mutable(rng) for _ in range(ctx.n(80, 600) * scale)]
     out, dist = [], {}
     for c in cases:
@@ -920,7 +938,8 @@ def oracle(ctx, scale=1):
                     "per-row/column degrees, value support, byte-identical repeat with the same seed, sr request = positive multiple of the "
                     "same-seed draw with numpy-eig radius == sr (rtol 1e-6) or an untouched null-radius draw, input_scaling = draw x scalar / "
                     "per-column, init(**k1)(**k2)(shape) == init(shape, **merged), module-level _kwargs unchanged; plus "
-                    "normal(5,5,sr=.9,connectivity=.1) for seeds 0..49; plus histories on partials storing a mutable value (numpy Generator "
+                    "normal(5,5,sr=.9,connectivity=.1) for seeds 0..49; float64 per-column factors on float32 (dense/csr/csc) and float16 (dense) "
+                    "draws; plus histories on partials storing a mutable value (numpy Generator "
                     "as seed, weights array): every partial returns the same matrix at each of its calls, the stored / caller's "
                     "Generator state and array are unchanged, partial(seed=rng)(shape) == init(shape, seed=equal rng)"}
 
